@@ -140,6 +140,11 @@ def check_one(o, styles, rnd):
             # qualified references: same structure once the qualifications are taken off
             p.expr = P.unqual(p.expr)
             p.rpn = [P.unqual(x) for x in p.rpn] if p.rpn else p.rpn
+        if st in ('lower', 'mixed') and p.expr:
+            # a literal keeps the letter case it was typed in (true / TrUe) in the exported
+            # text: the tree is the same, the comparison is on the canonical spelling
+            import re
+            p.expr = re.sub(r'(?<![\w.])true(?![\w.(])', 'TRUE', p.expr, flags=re.I)
         if not run:
             if p.expr != o['r']:
                 probs.append(('render', {'text': text, 'expected': o['r'], 'observed': p.expr, 'style': st}))
